@@ -1,5 +1,6 @@
 import EncodingRs.Lemmas.ConformEncFam
 import EncodingRs.Lemmas.ConformEncSrc
+import EncodingRs.Lemmas.ConformEncRepl
 import EncodingRs.Lemmas.ConformEncSym
 import EncodingRs.Lemmas.ConformEncSb
 import EncodingRs.Lemmas.ConformEncBig5
@@ -21,7 +22,8 @@ vendored indexes.
   (`Unmappable` recorded) and with numeric character references (error mode "html");
   `eref_erun`: `eref` is what repeated `erun … .unlimited` calls with `last = true` produce;
 * (c) `utf16_source_reads`, `utf8_source_reads`;
-* (d) `ncr_decimal`, `decimalDigits_shortest`;
+* (d) `ncr_decimal`, `decimalDigits_shortest`, `encRepl_html`, and the end-to-end corollaries
+  `encode_from_utf16_conforms` / `encode_from_utf8_conforms`;
 * (e) `output_encoding_utf8`, `utf8_never_unmappable`.
 -/
 namespace EncodingRs.Thm.C03
@@ -281,31 +283,68 @@ theorem decimalDigits_shortest (n : Nat) :
       ∧ (0 < n → (Spec.Encode.decimalDigits n).head? ≠ some 0x30) :=
   decimalDigits_spec n
 
-/- PENDING: `encRepl_html` — the with-replacement wrapper `Model.encRepl` (lib.rs `encode_from_utf8` /
-   `encode_from_utf16`, with its `NCR_EXTRA` capacity arithmetic and `total_read` bookkeeping over the
-   source buffer), when no `OutputFull` occurs, writes `erefHtml`:
+/-- `has_pending_state() = false` ⇒ the end-of-stream block writes nothing (every variant) -/
+theorem eof_empty_of_not_pending (v : Gen.Variant) (s : (efamOfVariant v).σ)
+    (h : (efamOfVariant v).hasPending s = false) : ((efamOfVariant v).eof s).1 = [] := by
+  cases v with
+  | iso2022Jp =>
+    have hs : ∀ s' : IsoEncSt, isoEncHasPending s' = false → (isoEncEof s').1 = [] := by
+      intro s' h'; cases s' <;> first | rfl | cases h'
+    exact hs s h
+  | _ => rfl
 
-     theorem encRepl_html (e ∈ Gen.encodings) (utf16 : Bool) (units : List Nat) (cap fuel : Nat) (r) :
-       encRepl (efamOfVariant e.variant) canAll Gen.ncrExtra utf16 true cap fuel init units [] = some r →
-       r.res = .inputEmpty →
-       r.out = erefHtml (efamOfVariant e.variant) init (((if utf16 then items16 units else items8 units)).map (·.1))
+/-- `encRepl_html`: the with-replacement wrapper `Model.encRepl` (lib.rs `encode_from_utf8` /
+`encode_from_utf16`: `NCR_EXTRA` capacity arithmetic, `total_read` bookkeeping over the source buffer),
+called with `last = true` and no inner call stopped, whenever it ends with `InputEmpty` (no
+`OutputFull` occurred) has written `erefHtml` of the characters of its source buffer — for every
+variant, either source form, every capacity and `NCR_EXTRA` -/
+theorem encRepl_html (v : Gen.Variant) (canAll : Bool) (ncrExtra : Nat) (utf16 : Bool) (cap fuel : Nat)
+    (src : List Nat) (r : EReplRes (efamOfVariant v).σ)
+    (h : encRepl (efamOfVariant v) canAll ncrExtra utf16 true cap fuel (efamOfVariant v).init src [] = some r)
+    (hres : r.res = .inputEmpty) :
+    r.out = erefHtml (efamOfVariant v) (efamOfVariant v).init
+      ((if utf16 then items16 src else items8 src).map (·.1)) := by
+  have := encRepl_html_of (efamOfVariant v) (eof_empty_of_not_pending v) canAll ncrExtra utf16 cap fuel _ src r h hres
+  rw [this]
+  cases utf16 <;> rfl
 
-   Proved so far (`…_partial`): the text-level statement with the replacement applied per report —
-   `encode_conforms` (second conjunct: `erefHtml` is the Standard's "html" run), `eref_is_raw_api`
-   (`eref`/`erefHtml` follow the raw calls `erun … .unlimited`) and `ncr_decimal`.  Missing: the
-   induction over `encRepl.go` relating `items (src.drop total_read)` to `(items src).drop k`
-   (width bookkeeping of the two sources).  The wrapper itself is tied to the code by the `enc`
-   correspondence (harness/src/enc.rs, with-replacement histories) and, end to end against the
-   Standard, by the `specenc` correspondence. -/
-
-/-- `encRepl_html_partial`: numeric character references per report, at the level of characters -/
-theorem encRepl_html_partial (e : Gen.EncodingInit) (he : e ∈ Gen.encodings) (text : List Nat)
-    (ht : ∀ c ∈ text, c < 0x110000) :
+/-- **C03 end to end, UTF-16 source.**  For each of the 40 encodings and ANY buffer of UTF-16 code
+units (unpaired surrogates allowed): what `encode_from_utf16` (model: `encRepl`, `last = true`) has
+written when it ends with `InputEmpty` is the output of the Standard's "encode" (error mode "html")
+of the output encoding on the scalar values of the buffer, each unpaired surrogate counting as U+FFFD -/
+theorem encode_from_utf16_conforms (e : Gen.EncodingInit) (he : e ∈ Gen.encodings) (units : List Nat)
+    (hu : ∀ u ∈ units, u < 0x10000) (canAll : Bool) (ncrExtra cap fuel : Nat)
+    (r : EReplRes (efamOfVariant e.variant).σ)
+    (h : encRepl (efamOfVariant e.variant) canAll ncrExtra true true cap fuel (efamOfVariant e.variant).init units []
+      = some r)
+    (hres : r.res = .inputEmpty) :
     ∃ E : Encoder, encoderOfName (outputEncodingName e.name) = some E
-      ∧ Runs E .html E.init text
-          ((erefHtml (efamOfVariant e.variant) (efamOfVariant e.variant).init text).map Ev.byte) :=
-  have ⟨E, hE, _, h⟩ := encode_conforms e he text ht
-  ⟨E, hE, h⟩
+      ∧ Runs E .html E.init (scalarValuesOfUtf16 units) (r.out.map Ev.byte) := by
+  have hout := encRepl_html e.variant canAll ncrExtra true cap fuel units r h hres
+  simp only [if_true] at hout
+  rw [utf16_source_reads] at hout
+  have hb : ∀ c ∈ scalarValuesOfUtf16 units, c < 0x110000 :=
+    decodeUtf16Lossy_lt units.length units (Nat.le_refl _) hu
+  have ⟨E, hE, _, hhtml⟩ := encode_conforms e he (scalarValuesOfUtf16 units) hb
+  exact ⟨E, hE, by rw [hout]; exact hhtml⟩
+
+/-- **C03 end to end, UTF-8 source**: the same for `encode_from_utf8` on the UTF-8 form of a text -/
+theorem encode_from_utf8_conforms (e : Gen.EncodingInit) (he : e ∈ Gen.encodings) (text : List Nat)
+    (ht : ∀ c ∈ text, c < 0x110000) (canAll : Bool) (ncrExtra cap fuel : Nat)
+    (r : EReplRes (efamOfVariant e.variant).σ)
+    (h : encRepl (efamOfVariant e.variant) canAll ncrExtra false true cap fuel (efamOfVariant e.variant).init
+      (Spec.Conv.utf8EncodeAll text) [] = some r)
+    (hres : r.res = .inputEmpty) :
+    ∃ E : Encoder, encoderOfName (outputEncodingName e.name) = some E
+      ∧ Runs E .html E.init text (r.out.map Ev.byte) := by
+  have hout := encRepl_html e.variant canAll ncrExtra false cap fuel _ r h hres
+  simp only [Bool.false_eq_true, if_false] at hout
+  rw [utf8_source_reads text ht, List.map_map] at hout
+  have hid : (text.map ((fun x : Nat × Nat => x.1) ∘ fun c => (c, Spec.Conv.utf8Len c))) = text := by
+    simp [Function.comp_def]
+  rw [hid] at hout
+  have ⟨E, hE, _, hhtml⟩ := encode_conforms e he text ht
+  exact ⟨E, hE, by rw [hout]; exact hhtml⟩
 
 /-! ## (e) output encodings -/
 
@@ -342,6 +381,10 @@ example : Model.ncr 0x10FFFF = [0x26, 0x23, 0x31, 0x31, 0x31, 0x34, 0x31, 0x31, 
 example : scalarValuesOfUtf16 [0x41, 0xD800, 0xD83D, 0xDE00, 0xDC00] = [0x41, 0xFFFD, 0x1F600, 0xFFFD] := by decide
 example : outputEncodingName "UTF-16LE" = "UTF-8" ∧ (encoderOfName "replacement").isNone = true := by
   constructor <;> decide
+/-- the wrapper does end with `InputEmpty` and writes the reference (x-user-defined, UTF-16 source with a lone surrogate) -/
+example : (encRepl userDefinedEFam false 10 true true 100 10 () [0x41, 0xE9, 0xD800, 0xF7FF] []).map (fun r => (r.res, r.out))
+    = some (.inputEmpty, [0x41, 0x26, 0x23, 0x32, 0x33, 0x33, 0x3B, 0x26, 0x23, 0x36, 0x35, 0x35, 0x33, 0x33, 0x3B, 0xFF]) := by
+  decide
 /-- GBK reports what gb18030 writes in four bytes; U+E5E5 is an error for both; U+E7C7 ↦ pointer 7457 -/
 example : indexGb18030RangesPointer 0xE7C7 = 7457 := by decide
 
